@@ -44,7 +44,7 @@ CHECKS = {
          "real crypto/tls and crypto/x509 on both sides; the process-wide system trust store holds the CA of the foreign-CA impostors so that trusting more than the configured files is observable; sampling",
          "deterministic simulation: impostor servers on a simulated network"),
  "C11": ("exploration", "5.C11", "2..16 client tasks x 1..6 operations (list / signers / sign / add / remove / remove-all / add-hardware-certificate / lock / unlock / extension / raw forward / sign through a handed-out signer) on one shared shim over the reference agent (directly, or - 30 % of the plans - each client through its own yubiagent client and a ServeAgent task per connection), every lock operation and every transport read/write being a scheduling point of the seeded token scheduler (random walk, PCT, bounded pre-emption), built with -race: (1) no race detector report whose two accessing functions are code under test - the scheduler is invisible to the detector, so a serialised run reports exactly the accesses not ordered by the code's own locks; (2) transport discipline on the upstream connection (each request frame from one task, each reply read by its requester); (3) replies carry the caller's own tag; (4) no deadlock within the step cap (a process crash is a violation too); (5) the recorded history plus the final upstream snapshot is linearizable against the sequential shim model (porcupine)",
-         "sync is replaced by the scheduler-aware simsync in agent/shimagent, agent/yubiagent (build overlay) and in a copy of x/crypto's agent client; goroutines started by code under test would run unscheduled (none today); fmt/sync.Pool inside the code under test can add happens-before edges that hide a race in some schedules; porcupine Unknown (timeout) is counted, never reported; sampling of schedules",
+         "sync is replaced by the scheduler-aware simsync in agent/shimagent, agent/yubiagent (build overlay) and in a copy of x/crypto's agent client; goroutines, callback timers and channel operations of the code under test in these packages are under the scheduler's control (a select with several ready cases is decided by the Go runtime; tickers and re-armed timers run in real time); fmt/sync.Pool inside the code under test can add happens-before edges that hide a race in some schedules; porcupine Unknown (timeout) is counted, never reported; sampling of schedules",
          "deterministic simulation: seeded schedule exploration with race-detector, transport and linearizability oracles"),
  "C20": ("exploration", "5.C20", "1..8 waiters (through the real yubiagent client -> ServeAgent -> concrete server, and direct Server.Wait callers) on equal and different codes 0..255 and requester connections sending requests with matching and non-matching codes, under the token scheduler: a waiter released during the run must have had a request with its code in flight after it registered; at every quiescent point (all tasks blocked) a still parked waiter must not have been preceded by a later request with its code; codes outside the table return without parking; no panic, no deadlock",
          "the harness releases the waiters left at quiescent points itself (clean-up broadcasts, accounted per code); request 'received' is approximated by the client-side send/reply interval; sampling of schedules",
@@ -70,12 +70,12 @@ ADDENDA = {
  "C08": "; passphrase variants (line terminators, NUL, case), buffers overwritten after the call, out-of-band (un)locking of the underlying agent while the shim is locked",
  "C09": "; KeyID documents in other JSON spellings and above 1 KiB, security-key certificates",
  "C10": "; ordering comparators, slow but honest replies on the simulated clock, buffers overwritten after calls, and the rule that a fault which turns a successful answer into a failure cannot end in a successful call",
- "C11": "; goroutines, callback timers and WaitGroups of the code under test are scheduler tasks too, read deadlines armed by the shim may expire, failure replies of the underlying agent, larger per-caller payloads, a scheduling point before a caller looks at its reply",
+ "C11": "; goroutines, callback timers, WaitGroups and channel operations (send, receive, select, range) of the code under test are scheduling seams too - a deadlock in a channel operation is a verdict -, read deadlines armed by the shim may expire, failure replies of the underlying agent, larger per-caller payloads, a scheduling point before a caller looks at its reply",
  "C12": "; complete frames of 64 KiB .. 1 MiB (thorough: 16 MiB), a transport that reports the end of the stream with the last bytes",
  "C13": "; smartcard add / remove, signing through client signers with the negotiated RSA algorithm, kept key objects compared again at the end of the session, a PIV tool whose output changes between calls",
  "C17": "; endpoints that heal between Sign calls on one Signer, CA signature formats per certificate, unusual request shapes, a parent context that is already over",
  "C18": "; chained client certificate files, a sibling TLS client configuration (built and used before the signer) with another CA bundle, impostors issued by that CA, by the client certificate's CA, or named as the first endpoint",
- "C20": "; a sibling agent in the same process, real lock / unlock requests, goroutines and timers of the code under test as scheduler tasks",
+ "C20": "; a sibling agent in the same process, real lock / unlock requests, goroutines, timers and channel operations of the code under test under the scheduler's control",
 }
 
 def main():
